@@ -385,7 +385,7 @@ PLANS['C11'] = dict(
 
 def _c10_jobs(tier):
     q = tier == 'quick'
-    shards, cases, steps = (16, 8, 600) if q else (16, 40, 2000)
+    shards, cases, steps = (16, 16, 800) if q else (16, 40, 2000)
     out = [dict(mode=m, shards=shards, cases=cases, steps=steps, mode_independent_rng=True, cfgname='diff') for m in ('py', 'c')]
     if not q:
         out.append(dict(mode='c', shards=8, cases=2, steps=600, mode_independent_rng=True, cfgname='asan', runner='asan', build='asan',
